@@ -33,7 +33,7 @@ MC_QUICK = [('OciTestContentMC_live.cfg', 'termination as a liveness property: u
 MC_THOROUGH = [('OciTestContentMC_live.cfg', MC_QUICK[0][1]),
                ('OciTestContentMC_tiny.cfg', 'up to 2 manifests, every subject relation, every set of 3 blobs, every binding of 2 tags'),
                ('OciTestContentMC_subj4.cfg', '4 manifests, all 2401 subject relations, all blobs or one missing, 3 tag bindings'),
-               ('OciTestContentMC_mix3.cfg', '3 manifests, every subject relation, 4 sets of blobs, every binding of 2 tags')]
+               ('OciTestContentMC_mix3.cfg', '3 manifests, every subject relation, 3 sets of blobs, every binding of 2 tags')]
 # (OciTestContentMC_all3.cfg - up to 3 manifests, every set of blobs, every binding of two tags: 663,812 states - is not part of a tier)
 
 
@@ -101,7 +101,7 @@ def export_cases(ctx, quick, badblobs):
         # the model's outcome "panic": a manifest that can be computed names a blob the content lacks
         conts = [c for c in conts if c['outcome'] != 'panic']
     rnd = random.Random(ctx.seed)
-    want = 160 if quick else 20000
+    want = 160 if quick else 8000
     if len(conts) > want:
         # every outcome class keeps its share; the rest is a seeded sample
         by = {}
@@ -150,7 +150,7 @@ def stage(ctx, quick, badblobs=True):
         t = os.path.join(td, 'tlc%03d.ndjson' % i)
         vlib.run_harness(ctx, vh, ['ocitest', '-cases', p, '-out', t])
         traces.append(t)
-    nrand = 120 if quick else 3000
+    nrand = 120 if quick else 2500
     per = 80     # per file; the harness keeps the catalogue of a file small (it is one TLA+ expression)
     i = 0
     while nrand > 0:
